@@ -13,6 +13,9 @@ type RDNAttr struct {
 	OID   []int
 	Value string
 	Tag   byte // string type: 0x13 PrintableString (default), 0x0C UTF8String, 0x16 IA5String, 0x1E BMPString
+	// Plus: this attribute belongs to the RDN of the attribute before it (multi-valued RDN,
+	// "OU=a+CN=b"); the members of such a SET are emitted in DER order. Default: an RDN of its own.
+	Plus bool
 }
 
 var (
@@ -23,7 +26,7 @@ var (
 	OIDSerial  = []int{2, 5, 4, 5}
 )
 
-// Name is a sequence of single-attribute RDNs.
+// Name is a sequence of RDNs; single-attribute ones unless RDNAttr.Plus joins neighbours.
 type Name []RDNAttr
 
 func (a RDNAttr) valueDER() []byte {
@@ -43,8 +46,12 @@ func (a RDNAttr) valueDER() []byte {
 
 func (n Name) DER() []byte {
 	var rdns [][]byte
-	for _, a := range n {
-		rdns = append(rdns, der.T(0x31, der.Seq(der.OID(a.OID...), a.valueDER())))
+	for i := 0; i < len(n); {
+		members := [][]byte{der.Seq(der.OID(n[i].OID...), n[i].valueDER())}
+		for i++; i < len(n) && n[i].Plus; i++ {
+			members = append(members, der.Seq(der.OID(n[i].OID...), n[i].valueDER()))
+		}
+		rdns = append(rdns, der.Set(members...))
 	}
 	return der.Seq(rdns...)
 }
